@@ -811,7 +811,7 @@ FUNCS = {
 # relative cost (library call + oracle) used to split the budget
 WEIGHT = {"rectangle_to_box": 0.15, "rectangle_to_rectangle": 0.4, "triangle_to_rectangle": 0.4,
           "triangle_to_triangle": 0.5, "line_to_circle": 0.35, "line_segment_to_circle": 0.35,
-          "disk_to_disk": 0.25, "point_to_circle": 0.5, "line_to_box": 0.6, "line_segment_to_box": 0.6,
+          "disk_to_disk": 0.25, "point_to_circle": 0.5, "line_to_box": 2.0, "line_segment_to_box": 1.5,
           "plane_to_box": 0.7}
 
 
